@@ -437,12 +437,10 @@ func (d *decoder) parseDefinitionMessage(recordHeader byte) (*defmsg, error) {
 	if err != nil {
 		return nil, err
 	}
-	if dm.fields == 0 {
-		if d.debug {
-			d.opts.logger.Println("parseDefinitionMessage: warning: 0 fields")
-			d.opts.logger.Println("parseDefinitionMessage: message:", dm)
-		}
-		return &dm, nil
+	if dm.fields == 0 && d.debug {
+		// No regular fields, but there may still be developer fields.
+		d.opts.logger.Println("parseDefinitionMessage: warning: 0 fields")
+		d.opts.logger.Println("parseDefinitionMessage: message:", dm)
 	}
 
 	if err = d.readFull(d.tmp[0 : 3*uint16(dm.fields)]); err != nil {
